@@ -97,7 +97,14 @@ def main():
   texts, items = [], []
   n_groups = 0
   for c in configs():
-    for kind, x in tensors(rng, rep.tier):
+    tlist = tensors(rng, rep.tier)
+    if c["fam"] == "ternary" and not isinstance(c["alpha"], str):
+      # the decision boundary itself: |x| == threshold is NOT below the threshold, its float32 neighbours on both sides
+      t = np.float32(0.33 if c["thr"] is None else c["thr"])
+      lo, hi = np.nextafter(t, np.float32(0)), np.nextafter(t, np.float32(np.inf))
+      edge = np.array([t, -t, lo, -lo, hi, -hi, 0.0, 2 * t, -2 * t, t / 2], dtype=np.float32)
+      tlist = [("threshold-edge", edge), ("threshold-edge", np.tile(edge[:8], 3).reshape(2, 3, 4))] + tlist
+    for kind, x in tlist:
       if c.get("scale_axis") is not None and (x.ndim <= c["scale_axis"] or x.ndim < 2):
         continue
       if c.get("eps") and x.shape[c["scale_axis"]] % c["eps"]:
